@@ -518,6 +518,32 @@ impl AssemblyCode {
             if !remove_second && !remove_both {
                 // Analyze the second instruction to check for a load
                 if let Some(AsmLine::Instruction(inst)) = &second {
+                    // Any other instruction that sets N/Z makes the flags stop reflecting the last load
+                    match inst.mnemonic {
+                        AsmMnemonic::INC
+                        | AsmMnemonic::DEC
+                        | AsmMnemonic::INX
+                        | AsmMnemonic::DEX
+                        | AsmMnemonic::INY
+                        | AsmMnemonic::DEY
+                        | AsmMnemonic::TAX
+                        | AsmMnemonic::TAY
+                        | AsmMnemonic::TXA
+                        | AsmMnemonic::TYA
+                        | AsmMnemonic::ADC
+                        | AsmMnemonic::SBC
+                        | AsmMnemonic::EOR
+                        | AsmMnemonic::AND
+                        | AsmMnemonic::ORA
+                        | AsmMnemonic::LSR
+                        | AsmMnemonic::ASL
+                        | AsmMnemonic::ROL
+                        | AsmMnemonic::ROR
+                        | AsmMnemonic::PLA
+                        | AsmMnemonic::PLP
+                        | AsmMnemonic::JSR => flags = FlagsState::Unknown,
+                        _ => (),
+                    }
                     match inst.mnemonic {
                         AsmMnemonic::LDA => {
                             if let Some(v) = &accumulator {
